@@ -82,7 +82,7 @@ def run(tier: str, seed: int) -> Dict[str, Any]:
         if mc["violation"]:
             raise tlc.TlcError("ClientRead violates " + mc["violation"] + mc["out"][-3000:])
         g = _cfg(d, "gen.cfg", types="{26, 34}", maxframes=6, maxreads=6, gen="TRUE", checks="INVARIANT GenInv")
-        behs = engine.gen_behaviours("ClientRead", g, num=300 if q else 4000, depth=40, seed=seed + 3)
+        behs = engine.gen_behaviours("ClientRead", g, num=300 if q else 2500, depth=40, seed=seed + 3)
     finally:
         shutil.rmtree(d, ignore_errors=True)
     behs += extra()
